@@ -123,7 +123,7 @@ func verifRoot(min, max libshare.Namespace) []byte {
 // order, each with the index of its first share - however the blobs sit in the
 // rows (spanning rows, after padding, adjacent, identical).
 //
-//verif:opts nopanic nodeadlock cover=blobs,empty,spanning,padding
+//verif:opts nopanic nodeadlock maxwall_thorough=3600 cover=blobs,empty,spanning,padding
 func VerifH_C11_GetAll() {
 	s, eh, ref, w, skipRows, c0, nrows := verifBlock()
 	if nrows > 1 {
@@ -157,7 +157,7 @@ func VerifH_C11_GetAll() {
 // Fetching by commitment returns the (first) blob with that commitment if
 // and only if the block contains one; otherwise "blob not found".
 //
-//verif:opts nopanic nodeadlock cover=found,notfound
+//verif:opts nopanic nodeadlock maxwall_thorough=3600 cover=found,notfound
 func VerifH_C11_GetByCommitment() {
 	s, _, ref, w, skipRows, c0, _ := verifBlock()
 	// the commitment asked for: identity (n, seqLen) of an arbitrary blob
@@ -189,24 +189,27 @@ func VerifH_C11_GetByCommitment() {
 // rows the (first) blob with that commitment occupies - not of rows an earlier
 // blob of the namespace ended in - so that Included accepts the honest proof.
 //
-//verif:opts nopanic nodeadlock cover=onerow,multirow,afterspanning
+//verif:opts nopanic nodeadlock maxwall_thorough=3600 cover=onerow,multirow,afterspanning
 func VerifH_C11_ProofRows() {
 	s, _, ref, w, _, c0, _ := verifBlock()
 	rows := s.shareGetter.(*verifGetter).rows
-	n := 1 + nd.Choice(3, "wantShares")
-	seqLen := nd.U32("wantSeqLen")
+	// the commitment asked for: that of an arbitrary blob of the block (absent
+	// commitments: VerifH_C11_GetByCommitment)
+	if len(ref) == 0 {
+		nd.End()
+	}
+	k := nd.Choice(len(ref), "wantBlob")
+	n, seqLen := ref[k].n, ref[k].seqLen
 	want := make([]byte, 9)
 	want[0] = 0xc0
 	binary.BigEndian.PutUint32(want[1:], uint32(n))
 	binary.BigEndian.PutUint32(want[5:], seqLen)
-	first := -1
-	for i := len(ref) - 1; i >= 0; i-- {
+	// the first blob with that commitment (an earlier byte-identical one wins)
+	first := k
+	for i := k - 1; i >= 0; i-- {
 		if ref[i].n == n && ref[i].seqLen == seqLen {
 			first = i
 		}
-	}
-	if first < 0 {
-		nd.End() // absent commitments: VerifH_C11_GetByCommitment
 	}
 	proof, err := s.GetProof(context.Background(), 5, verifNs, want)
 	nd.Assert(err == nil && proof != nil, "present-commitment-has-a-proof")
